@@ -84,6 +84,8 @@ def message_pool(rng: random.Random, hosts=("peer1.x", "peer2.x"), unique=False)
         cer(h, "4", hb, ee), cer("stranger.x", "4", hb, ee), cer(h, "99", hb, ee), cer(h, "4294967295", hb, ee),
         cer(None, "4", hb, ee), cer(h.upper(), "4+3", hb, ee),
         cea(2001, h, hb, ee), cea(3010, h, hb, ee), cea(5010, h, hb, ee), cea(2001, None, hb, ee),
+        cea(2001, h.upper(), hb, ee), cea(2001, h.capitalize(), hb, ee),      # identities are case-insensitive names
+        dwr(0, ee, h), dwr(hb, 0, h), unk(0, ee, h, app=77), dpr(hb, 0, h),      # identifier 0 is an identifier like any other
         dwr(hb, ee, h), dwa(hb, ee, h), dpr(hb, ee, h), dpa(hb, ee, h),
         ccr(hb, ee, h), ccr(hb, ee, h, flags=208), ccr(hb, ee, h, realm="foreign.realm"), ccr(hb, ee, h, realm="other.realm"),
         ccr(hb, ee, h, app=77), ccr(hb, ee, h, drop=("sc",)), ccr(hb, ee, h, drop=("sid", "rt")), ccr(hb, ee, h, drop=("dr",)),
